@@ -25,13 +25,18 @@ state surviving between calls or instances, single configuration combinations, b
 of sites that are each correct alone). Round 3: eight agents, each given all 16 property texts, all
 earlier summaries and a "flavour" (performance work, refactoring, leniency, error handling, new
 features, state/lifetime, encoding, arithmetic/boundaries), three changes each, explicitly asked to
-aim just outside what a small-scope exhaustive tester enumerates. Every change was confirmed here
+aim just outside what a small-scope exhaustive tester enumerates. Round 4: the same with a *focus area*
+per agent (process-global state and interleavings, the JSON path, key binding, the holder's selection
+walk, issuer strategy handling, verifier unpacking, the mock build and utilities, use of the
+dependencies). Every change was confirmed here
 (`tools/confirm_seed.sh` in a scratch worktree: demo passes without the change, 146/146 suite tests
 pass with it, demo fails with it) and run against all 16 quick checks in scratch copies
 (`tools/seedmatrix.sh`; `/repo` itself is never modified). Kept under `/verif/seeded/<name>/`
 (`patch.diff`, `demo.rs`, `meta.json`).
 
-**%d changes kept; every one is reported by at least one quick check.** "own" = the check of the
+**%d changes kept. In the matrix runs all but one were reported by at least one quick check; the one that
+no check reported (R4L_r4_seed_b, a holder panic reachable only through a single-member selection) led to
+the repair described in its note, and is reported by C07 now.** "own" = the check of the
 property the change was aimed at. "yes, after strengthening" means the check as it stood when the
 agent finished would have missed it (or exited 2), the miss was understood from the agent's
 description or from the matrix, and the check was widened; `meta.json` says which.
